@@ -568,7 +568,10 @@ class Normalizer:
             a = ("atom", f"in({self.key(left)}, {self.key(right)})")
             return a if isinstance(op, ast.In) else neg(a)
         try:
-            d = (self.rat(left) - self.rat(right)).normalised()
+            if isinstance(op, (ast.Eq, ast.NotEq)) and not (self._looks_numeric(left) or self._looks_numeric(right)):
+                d = None  # equality of non-arithmetic values (names, sets, strings): keep symbolic
+            else:
+                d = (self.rat(left) - self.rat(right)).normalised()
         except NotClosedForm:
             d = None
         if d is None or not d.d.is_const():
@@ -589,6 +592,24 @@ class Normalizer:
             return ("atom", f"ge({kl}, {kr})")
         p = d.n.scale(1 / d.d.const_value())
         return self._cmp_poly(p, type(op))
+
+    def _looks_numeric(self, e: ast.AST, depth: int = 0) -> bool:
+        if isinstance(e, ast.Constant):
+            return isinstance(e.value, (int, float)) and not isinstance(e.value, bool)
+        if isinstance(e, ast.BinOp):
+            return self._is_arith(e)
+        if isinstance(e, ast.UnaryOp):
+            return isinstance(e.op, (ast.USub, ast.UAdd))
+        if isinstance(e, ast.Call):
+            return astx.u(e.func) in ("len", "int", "sum", "abs", "round", "float", "Fraction", "min", "max", "math.floor")
+        if isinstance(e, ast.Name) and depth < 3:
+            r = self.rename(e)
+            if r is not None:
+                return False
+            v = self._lookup(e.id)
+            if v is not None:
+                return self._looks_numeric(v, depth + 1)
+        return False
 
     def _cmp_poly(self, p: Poly, op) -> tuple:
         """p op 0  ->  canonical atom over Q (no constant term, leading coeff positive)."""
